@@ -193,8 +193,22 @@ func c03Clients(c *vk.Ctx, r *rand.Rand, w *c03World, fc *udpClient) bool {
 			if size > 20000 && r.Intn(3) > 0 {
 				size = 200
 			}
+			// the same destination in every form a client may encode it
+			addrBytes, form := tgt.addr(), "ip"
+			switch x := r.Intn(8); {
+			case x == 0 && tgt.Addr.IP.To4() != nil:
+				addrBytes, form = sscodec.AddrIP(tgt.Addr.IP, tgt.Addr.Port, true), "ipv4-mapped-ipv6"
+			case x == 1:
+				addrBytes, form = sscodec.AddrDomain(tgt.Addr.IP.String(), tgt.Addr.Port), "ip-literal-as-domain"
+			case x == 2:
+				for ti, t := range w.targets {
+					if t == tgt {
+						addrBytes, form = sscodec.AddrDomain(fmt.Sprintf("t%d.c03.lab", ti), tgt.Addr.Port), "host-name"
+					}
+				}
+			}
 			if size == 65000 {
-				size = 65507 - k.Codec().C.SaltSize - 16 - len(tgt.addr()) // the largest datagram that fits
+				size = 65507 - k.Codec().C.SaltSize - 16 - len(addrBytes) // the largest datagram that fits
 			}
 			replies := r.Intn(3)
 			rsize := pick(r, []int{8, 100, 1400, 20000})
@@ -207,8 +221,9 @@ func c03Clients(c *vk.Ctx, r *rand.Rand, w *c03World, fc *udpClient) bool {
 			payload := mkUDPPayload(id, replies, rsize, size)
 			c.Progress("C03 client=%s key=%s tgt=%s size=%d replies=%d", clientAddr, k.ID, tgt.Name, size, replies)
 			before := tgt.Count()
-			cl.Send(ssUDP(k, randBytes(r, k.Codec().C.SaltSize), tgt.addr(), payload), server)
-			c.Eval(fmt.Sprintf("valid|%s|pos=%s|size=%s|%s|first=%v", k.Cipher, posClass(keyPosOf(keys, k), len(keys)), sizeBucket(size), tgt.Name, si == 0))
+			cl.Send(ssUDP(k, randBytes(r, k.Codec().C.SaltSize), addrBytes, payload), server)
+			c.Eval(fmt.Sprintf("valid|%s|pos=%s|size=%s|%s|first=%v|addr=%s", k.Cipher, posClass(keyPosOf(keys, k), len(keys)), sizeBucket(size), tgt.Name, si == 0, form))
+			c.Count("destination_form_"+form, 1)
 			var got recvEv
 			if size >= 11 {
 				g, ok := tgt.waitID(id, udpB)
@@ -225,7 +240,7 @@ func c03Clients(c *vk.Ctx, r *rand.Rand, w *c03World, fc *udpClient) bool {
 				got = tgt.Snap()[before]
 			}
 			if !bytes.Equal(got.Data, payload) {
-				c.Violation("C03/forwarded-payload-differs", map[string]any{"size": size, "got_len": len(got.Data), "first_diff": firstDiff(got.Data, payload), "key": k})
+				c.Violation("C03/forwarded-payload-differs", map[string]any{"size": size, "got_len": len(got.Data), "first_diff": firstDiff(got.Data, payload), "key": k, "destination_form": form})
 				return false
 			}
 			c.Count("valid_forwarded_intact", 1)
@@ -524,6 +539,8 @@ func init() {
 			c.Require("zoned_link_local_replies_verified")
 			c.Require("hostname_pairs_intact")
 			c.Require("list_replacements_checked")
+			c.Require("destination_form_ipv4-mapped-ipv6")
+			c.Require("destination_form_ip-literal-as-domain")
 			c03Run(c)
 		},
 	})
